@@ -6,8 +6,8 @@
                            reach= outcomes of resolve over EVERY oracle, enumerated as choice sequences
                                   (one permutation per call of the oracle); exact=1 unless more than
                                   <cap> runs would be needed (then reach is a subset)
-                           one=   one_error cutoff P
-     det PROG              THE outcome of the implementation: resolve sort_oracle (Model/Determinism.v)
+                           one=   one_error (pass_fuel P) P
+     det PROG              THE outcome of the implementation: resolve name_order_oracle (Model/Determinism.v)
      fronts <n> <k> name*k PROG   outcomes of resolve under seed_oracle 0..n-1 and under front_oracle f
                            (the oracle that puts f first every time it is asked) for the k given names
      natnames PROG         index=name,name,... : what compiler.Program.nativeFuncNames[index] can hold
@@ -49,7 +49,7 @@ let rec p_natives n toks =
   match toks with
   | nm :: nin :: va :: r ->
       let (l, r) = p_natives (n - 1) r in
-      ({ n_name = bytes_of_hex nm; n_in = z_of_string nin; n_variadic = bool_of_string va } :: l, r)
+      ({ n_name = bytes_of_hex nm; n_in = z_of_string nin; n_variadic = bool_of_string va; n_func = true } :: l, r)
   | _ -> failwith "native eof"
 
 let rec p_funcs n toks =
@@ -182,15 +182,15 @@ let handle = function
       let p = p_prog toks in
       let names = List.map (fun fd -> fd.f_name) p.p_funcs in
       if List.length names > 5 then "toolarge" else
-      let all = uniq (List.map (res_string p) (order_outcomes cutoff p)) in
+      let all = uniq (List.map (res_string p) (order_outcomes (pass_fuel p) p)) in
       let fix_first = (call_graph p <> []) in
       let (reach, exact) = enumerate_oracles (int_of_string cap) fix_first (fun pi -> res_string p (resolve pi p)) in
       Printf.sprintf "all= %s ;; reach= %s ;; exact=%s one=%s"
-        (String.concat " | " all) (String.concat " | " reach) (string_of_bool exact) (string_of_bool (one_error cutoff p))
+        (String.concat " | " all) (String.concat " | " reach) (string_of_bool exact) (string_of_bool (one_error (pass_fuel p) p))
   | "det" :: toks ->
       (* the implementation since the repair of F-C19-1/2: the keys of every map sorted before use *)
       let p = p_prog toks in
-      res_string p (resolve sort_oracle p)
+      res_string p (resolve name_order_oracle p)
   | "fronts" :: n :: k :: toks ->
       let n = int_of_string n and k = int_of_string k in
       let (fronts, toks) = p_names k toks in
